@@ -90,7 +90,8 @@ impl Quantizer {
     ///
     pub fn convert(&mut self, v_in: f32) -> Conversion {
         // return early if vin is within the window of the last coversion plus a little hysteresis
-        if self.is_allowed(self.cached_conversion.note_num.into()) {
+        // note numbers span many octaves, what is allowed or forbidden is the pitch class within the octave
+        if self.is_allowed((self.cached_conversion.note_num % 12).into()) {
             let low_bound = self.cached_conversion.stairstep - HYSTERESIS;
             let high_bound = self.cached_conversion.stairstep + SEMITONE_WIDTH + HYSTERESIS;
 
